@@ -15,7 +15,9 @@ EXPLANATION = ("(reg-map) in ThreadInfoX86::fill_cpu_context every integer/flag/
                "reachable after resume_threads (effect summaries over the call graph seeded by a table of foreign leaves); "
                "(skip-only-null-sp) an attached thread is dropped exactly when getregs failed or rsp == 0; (regs-source) ThreadInfo.regs/"
                "fpregs/dregs/stack_pointer come from ptrace requests on the same tid; (thread-list-mutators) PtraceDumper::threads is written only by "
-               "enumerate_threads (push) and suspend_threads (retain keyed on the attach result): every other writer in the crate is reported.")
+               "enumerate_threads (push) and suspend_threads (retain keyed on the attach result): every other writer in the crate is reported; (lane-copy) copy_u32_registers, which turns the kernel's u32 register words "
+               "into the context's u128 slots, is either the byte-wise copy dst_bytes[..n] <- src_bytes[..n] (n = min of both byte lengths) or a "
+               "per-register assembly whose value evaluates to words[0] | words[1]<<32 | words[2]<<64 | words[3]<<96.")
 TRUSTED = ["ptrace returns the stopped thread's registers", "tables/abi_x86_64.json", "foreign-leaf effect table (reads_target seeds)"]
 ASSUMPTIONS = ["enumeration races with thread creation/exit are kernel schedules, not decided here",
                "only the x86_64 configuration is compiled on this host"]
@@ -319,6 +321,109 @@ def rule_thread_list_mutators(ctx):
     ctx.floor(R, "reviewed writers of PtraceDumper::threads present", len([k for k in found if k in THREAD_LIST_MUTATORS]), 2)
 
 
+COPY_U32 = "linux::thread_info::copy_u32_registers"
+
+
+def rule_lane_copy(ctx, R="C04/lane-copy"):
+    """the helper that turns the kernel's u32 register words (st_space / xmm_space) into the context's u128 slots, used by both
+    fill_cpu_context implementations.  Two accepted forms:
+      (bytes)  dst bytes [..n] <- src bytes [..n], n = min(16*|dst|, 4*|src|), both byte views built from the slices' own pointers
+      (lanes)  for (reg, words) in dst.iter_mut().zip(src.chunks_exact(4)): *reg = value that evaluates to sum(words[k] << 32k)
+    (little-endian target: lane k of register r is word 4r + k in both forms)"""
+    from engine import ipe
+    b = ctx.body(R, COPY_U32)
+    if b is None:
+        return
+    o = Origin(b)
+    cfs = list(b.calls(lambda c: (c.short or "").split("::")[-1] == "copy_from_slice"))
+    if cfs:
+        ok = len(cfs) == 1
+        why = "more than one copy" if not ok else ""
+        if ok:
+            a = o.call_args(cfs[0][0])
+            d, s_ = strip(a[0]), strip(a[1])
+
+            def view(e, ctor, ptr, elem, param):
+                e = strip(e)
+                if not (e[0] == "call" and e[1].split("::")[-1] == ctor and len(e[2]) == 2):
+                    return False
+                p_, n_ = strip(e[2][0]), core(e[2][1])
+                while p_[0] == "call" and p_[1].split("::")[-1] == "cast":
+                    p_ = strip(p_[2][0])
+                okp = p_[0] == "call" and p_[1].split("::")[-1] == ptr and root(strip(p_[2][0])) == ("param", param)
+                okn = False
+                if n_[0] == "bin" and n_[1] == "Mul":
+                    for x, y in ((n_[2], n_[3]), (n_[3], n_[2])):
+                        x, y = core(x), core(y)
+                        if x[0] in ("call", "len") and (x[0] == "len" or x[1].split("::")[-1] == "len") and is_const(y) and y[1] == elem:
+                            src_of = strip(x[2][0]) if x[0] == "call" else strip(x[1])
+                            okn = root(src_of) == ("param", param)
+                return okp and okn
+
+            def windowed(e, base_ok):
+                e = strip(e)
+                if not (e[0] == "call" and e[1].split("::")[-1] in ("index", "index_mut") and len(e[2]) == 2):
+                    return None
+                base, rng = e[2][0], strip(e[2][1])
+                if not base_ok(base) or not (rng[0] == "agg" and rng[1].endswith("ops::RangeTo")):
+                    return None
+                return nosite(core(dict(rng[3])["end"]))
+            nd = windowed(d, lambda e: view(e, "from_raw_parts_mut", "as_mut_ptr", 16, 1))
+            ns = windowed(s_, lambda e: view(e, "from_raw_parts", "as_ptr", 4, 2))
+            ok = nd is not None and ns is not None and nd == ns and nd[0] == "call" and nd[1].split("::")[-1] == "min"
+            if ok:
+                lens = [nosite(strip(x)) for x in nd[2]]
+                ok = all(x[0] in ("call", "len") for x in lens)
+            why = "destination window %s / source window %s" % (show(nd)[:80] if nd else "?", show(ns)[:80] if ns else "?")
+        ctx.check(ok, R, "bytes", b.where(cfs[0][0]),
+                  "bytes [..min(16*|dst|, 4*|src|)) of the u128 slots are the same-index bytes of the u32 words (lane k of register r = word 4r+k)",
+                  "the byte-wise register copy is not dst_bytes[..n] <- src_bytes[..n] with n = min of both byte lengths: %s" % why)
+        return
+    # lane form
+    stores = []
+    for bi, blk in enumerate(b.blocks):
+        for si, st in enumerate(blk["stmts"]):
+            if st["k"] == "assign" and st["p"]["proj"] and st["p"]["proj"][0]["k"] == "deref" and len(st["p"]["proj"]) == 1 and "u128" in (st["p"].get("ty") or ""):
+                stores.append((bi, si, st))
+    if len(stores) != 1:
+        ctx.unproven(R, "form", b.where(0), "copy_u32_registers is neither the byte-wise copy nor a single per-register store (found %d u128 stores)" % len(stores))
+        return
+    bi, si, st = stores[0]
+    tgt = o._resolve(st["p"]["l"], (), (bi, si), 0)
+    it = [x for x in walk(tgt) if x[0] == "call" and x[1].split("::")[-1] == "zip"]
+    okit = False
+    if it:
+        za = it[0][2]
+        l_, r_ = strip(za[0]), strip(za[1])
+        okit = (l_[0] == "call" and l_[1].split("::")[-1] == "iter_mut" and root(strip(l_[2][0])) == ("param", 1)
+                and r_[0] == "call" and r_[1].split("::")[-1] == "chunks_exact" and root(strip(r_[2][0])) == ("param", 2) and core(r_[2][1]) == ("const", 4, "usize"))
+    ctx.check(okit, R, "lanes-iterate", b.where(bi, si), "registers are paired with consecutive groups of four words (dst.iter_mut().zip(src.chunks_exact(4)))",
+              "the per-register loop does not pair dst[r] with src[4r..4r+4]: %s" % show(tgt)[:160])
+    val = o._rvalue(st["r"], (bi, si), 0)
+    good, shown = True, ""
+    try:
+        for lanes in ((0x80000001, 0x90000002, 0xa0000003, 0xb0000004), (0xffffffff, 0, 0x7fffffff, 0x80000000), (1, 2, 4, 8)):
+            def leaf(e, lanes=lanes):
+                if e[0] == "index" and is_const(core(e[2])) and 0 <= core(e[2])[1] < 4:
+                    return (lanes[core(e[2])[1]], "u32")
+                if e[0] in ("conv",) or (e[0] == "call" and e[1].split("::")[-1] == "from"):
+                    inner = e[1] if e[0] == "conv" else e[2][0]
+                    return (ipe.Eval({}, {}, leaf=leaf).val(inner)[0], "u128")
+                if e[0] == "cast" and e[3] == "u128":
+                    return (ipe.Eval({}, {}, leaf=leaf).val(e[1])[0], "u128")
+                return None
+            got = ipe.Eval({}, {}, leaf=leaf).val(val)[0]
+            want = sum(l << (32 * k) for k, l in enumerate(lanes))
+            if got != want:
+                good = False
+                shown = "words %s give %#034x, the register holds %#034x" % ([hex(x) for x in lanes], got, want)
+    except ipe.Unsupported as e:
+        ctx.unproven(R, "lanes-value", b.where(bi, si), "cannot evaluate the stored register value: %s" % e)
+        return
+    ctx.check(good, R, "lanes-value", b.where(bi, si), "the stored u128 is words[0] | words[1] << 32 | words[2] << 64 | words[3] << 96 (evaluated on three lane patterns)",
+              "the u128 assembled from four register words is not their little-endian concatenation: %s" % shown)
+
+
 def run(ctx):
     rule_reg_map(ctx)
     rule_regs_source(ctx)
@@ -326,3 +431,4 @@ def run(ctx):
     rule_window(ctx)
     rule_skip_only_null_sp(ctx)
     rule_thread_list_mutators(ctx)
+    rule_lane_copy(ctx)
